@@ -266,7 +266,7 @@ def copies():
     src = X.strip_comments(X.read_repo(REL))
     ms = re.findall(r'template<class Other>\s*virtual_ptr\(((?:const\s+)?virtual_ptr<Other, Policy>&&?)\s+other\)\s*:\s*obj\(([^()]*(?:\([^()]*\))?[^()]*)\),\s*vptr\(([^()]*)\)\s*\{\s*\}', src)
     if len(ms) != 3:
-        raise X.ExtractionBroken('virtual_ptr converting constructors: %d found (expected 3)' % len(ms))
+        return copies_with_bodies(src)
     out = []
     for k, (param, e_obj, e_vptr) in enumerate(ms):
         e_obj = re.sub(r'std::move\((.*)\)', r'\1', e_obj.strip())
@@ -294,6 +294,54 @@ void h_copies(void)
     YV_COVER(1, "reachable");
 }
 ''')
+    return '\n'.join(out)
+
+
+def copies_with_bodies(src):
+    """Converting constructors that have a body (member-initialiser list + statements): the body is evaluated for every
+    (smart pointer, indirect) configuration and run after the initialisers; the contract is the same - the object and the
+    source's v-table pointer are what the new virtual_ptr holds."""
+    rx = re.compile(r'template<class Other>\s*virtual_ptr\(((?:const\s+)?virtual_ptr<Other, Policy>&&?)\s+other\)\s*:\s*obj\(([^()]*(?:\([^()]*\))?[^()]*)\),\s*vptr\(([^()]*)\)\s*\{')
+    found = []
+    for m in rx.finditer(src):
+        end = X.match_close(src, m.end() - 1)
+        found.append((m.group(1), m.group(2), m.group(3), src[m.end():end]))
+    if len(found) != 3:
+        raise X.ExtractionBroken('virtual_ptr converting constructors: %d found (expected 3)' % len(found))
+
+    class _Ex:
+        rules_fired = []; dropped = []
+        def where(self): return REL + ' [converting constructor]'
+    out, calls = [], []
+    names = ('converting from virtual_ptr&', 'copying', 'moving')
+    for smart in (0, 1):
+        for ind in (0, 1):
+            def ev(cond, smart=smart, ind=ind):
+                c = cond.replace(' ', '')
+                t = {'IsSmartPtr': bool(smart), 'is_indirect': bool(ind), 'IsSmartPtr&&is_indirect': bool(smart and ind),
+                     'is_indirect&&IsSmartPtr': bool(smart and ind), '!IsSmartPtr': not smart, '!is_indirect': not ind,
+                     'has_facet<Policy,indirect_vptr>': bool(ind)}
+                return t.get(c)
+            mem = 'self->ivptr' if ind else 'self->vptr'
+            for k, (param, e_obj, e_vptr, body) in enumerate(found):
+                e_obj = re.sub(r'std::move\((.*)\)', r'\1', e_obj.strip()).replace('other.', 'other->')
+                e_vptr = e_vptr.strip().replace('other.', 'other->')
+                b = X.eval_if_constexpr(ev, 0)(_Ex(), body)
+                b = re.sub(r'&\s*Policy::template\s+static_vptr<[^;]*>', '(const uintptr_t *const *)&STATIC_VPTR_OF_T', b)
+                b = re.sub(r'Policy::template\s+static_vptr<[^;]*>', 'STATIC_VPTR_OF_T', b)
+                b = re.sub(r'(?<![\w.>])vptr\b', mem, b)
+                b = b.replace('other.', 'other->')
+                for r in X.COMMON_RULES:
+                    b = re.sub(r.pattern, r.repl, b)
+                if re.search(r'\bauto\b|std::|Policy::|\bconstexpr\b|\bthis\b', b):
+                    raise X.ExtractionBroken('virtual_ptr converting constructor body: untranslated C++ left: ' + b.strip()[:120])
+                fn = 'virtual_ptr_copy%d_s%di%d' % (k, smart, ind)
+                out.append('void %s(virtual_ptr *self, virtual_ptr *other) { self->obj = %s; self->vptr = %s; self->ivptr = %s; %s }'
+                           % (fn, e_obj, e_vptr, e_vptr.replace('vptr', 'ivptr'), b))
+                calls.append('    a = a0; %s(&b, &a);\n    __CPROVER_assert(b.obj == a0.obj && b.%s == a0.%s, "C09 %s (smart pointer %d, indirect %d): object and v-table pointer are those of the source");'
+                             % (fn, 'ivptr' if ind else 'vptr', 'ivptr' if ind else 'vptr', names[k], smart, ind))
+    out.append('void h_copies(void)\n{\n    virtual_ptr a, b; int o;\n    a.obj = &o; a.vptr = nondet_vptr(); a.ivptr = nondet_ivptr();\n    virtual_ptr a0 = a;\n'
+               + '\n'.join(calls) + '\n    YV_COVER(1, "reachable");\n}\n')
     return '\n'.join(out)
 
 
